@@ -21,6 +21,8 @@ import (
 	"fmt"
 	"math/big"
 	"math/rand"
+	"net/http"
+	"net/http/httptest"
 	"os"
 	"path"
 	"path/filepath"
@@ -70,12 +72,130 @@ type c11rCeremony struct {
 	Seed       int             `json:"seed"`
 	FullRun    bool            `json:"full_run"`
 	NoVerify   bool            `json:"no_verify,omitempty"` // dkg.Config.NoVerify (the --no-verify flag)
+	// Dirty: nodes whose data dir contains, before dkg.Run, stray siblings of the output artefacts that checkClearDataDir
+	// tolerates (cluster-lock.json.tmp / .bak / ~, validator_keys.tmp/, validator_keys.bak/, *.deposit-data*.json.tmp) whose
+	// content is the valid artefact of a DIFFERENT earlier ceremony.
+	Dirty []int `json:"dirty_nodes,omitempty"`
+	// KM: per node "" (keys to disk) | "ok" | "500" (import answered with HTTP 500) | "hang" (import never answered)
+	KM  []string         `json:"keymanager,omitempty"`
+	kms map[int]*c11rKM  // captured imports
 	Drop       *c11rDrop       `json:"drop,omitempty"` // lossy transport: node To loses the streams of kind Kind coming from node From
 	Dropped    int             `json:"streams_dropped,omitempty"`
 	NodeErrs   []string        `json:"node_errors,omitempty"`
 	Seconds    float64         `json:"seconds"`
 	Err        string          `json:"err,omitempty"`
 	Validators []c11rValidator `json:"validators"`
+}
+
+// c11rKM is a node's keymanager stand-in (httptest): reachable at start-up; the import request is served per mode.
+type c11rKM struct {
+	mu        sync.Mutex
+	mode      string
+	srv       *httptest.Server
+	imports   int
+	keystores []string
+	passwords []string
+	release   chan struct{}
+}
+
+func c11rNewKM(mode string) *c11rKM {
+	k := &c11rKM{mode: mode, release: make(chan struct{})}
+	k.srv = httptest.NewServer(http.HandlerFunc(func(w http.ResponseWriter, r *http.Request) {
+		var req struct {
+			Keystores []string `json:"keystores"`
+			Passwords []string `json:"passwords"`
+		}
+		_ = json.NewDecoder(r.Body).Decode(&req)
+		k.mu.Lock()
+		k.imports++
+		k.mu.Unlock()
+		switch k.mode {
+		case "500":
+			http.Error(w, "keymanager database is locked", http.StatusInternalServerError)
+		case "hang":
+			select {
+			case <-r.Context().Done():
+			case <-k.release:
+			}
+		default:
+			k.mu.Lock()
+			k.keystores, k.passwords = req.Keystores, req.Passwords
+			k.mu.Unlock()
+			w.WriteHeader(http.StatusOK)
+			_, _ = w.Write([]byte(`{"data":[]}`))
+		}
+	}))
+	return k
+}
+
+// secrets loads what the keymanager accepted with the repository's keystore loader.
+func (k *c11rKM) secrets(t *testing.T) ([]tbls.PrivateKey, error) {
+	t.Helper()
+	k.mu.Lock()
+	defer k.mu.Unlock()
+	if len(k.keystores) == 0 {
+		return nil, nil
+	}
+	dir := t.TempDir()
+	for i := range k.keystores {
+		if err := os.WriteFile(path.Join(dir, fmt.Sprintf("keystore-%d.json", i)), []byte(k.keystores[i]), 0o600); err != nil {
+			return nil, err
+		}
+		if err := os.WriteFile(path.Join(dir, fmt.Sprintf("keystore-%d.txt", i)), []byte(k.passwords[i]), 0o600); err != nil {
+			return nil, err
+		}
+	}
+	files, err := keystore.LoadFilesUnordered(dir)
+	if err != nil {
+		return nil, err
+	}
+	return files.SequencedKeys()
+}
+
+// c11rStrays copies the artefacts of an earlier ceremony (node dir `from`) into the data dir `to` under names that
+// checkClearDataDir tolerates.
+func c11rStrays(from, to string) error {
+	if err := os.MkdirAll(to, 0o755); err != nil {
+		return err
+	}
+	lock, err := os.ReadFile(path.Join(from, "cluster-lock.json"))
+	if err != nil {
+		return err
+	}
+	for _, suffix := range []string{".tmp", ".bak", "~"} {
+		if err := os.WriteFile(path.Join(to, "cluster-lock.json"+suffix), lock, 0o444); err != nil {
+			return err
+		}
+	}
+	keys, _ := filepath.Glob(path.Join(from, "validator_keys", "*"))
+	for _, d := range []string{"validator_keys.tmp", "validator_keys.bak"} {
+		if err := os.MkdirAll(path.Join(to, d), 0o755); err != nil {
+			return err
+		}
+		for _, f := range keys {
+			b, err := os.ReadFile(f)
+			if err != nil {
+				return err
+			}
+			if err := os.WriteFile(path.Join(to, d, filepath.Base(f)), b, 0o600); err != nil {
+				return err
+			}
+			if err := os.WriteFile(path.Join(to, d, filepath.Base(f)+".tmp"), b, 0o600); err != nil {
+				return err
+			}
+		}
+	}
+	deps, _ := filepath.Glob(path.Join(from, "deposit-data*.json"))
+	for _, f := range deps {
+		b, err := os.ReadFile(f)
+		if err != nil {
+			return err
+		}
+		if err := os.WriteFile(path.Join(to, "stale."+filepath.Base(f)+".tmp"), b, 0o444); err != nil {
+			return err
+		}
+	}
+	return nil
 }
 
 type c11rDrop struct {
@@ -200,11 +320,26 @@ func c11rRunLossy(t *testing.T, def cluster.Definition, dir string, p2pKeys []*k
 			}
 			conf.TestConfig.P2PNodeCallback = func(h host.Host) { c11rLossy(h, from, c.Drop.Kind, &c.Dropped, &dropMu) }
 		}
+		kmRun := c != nil && len(c.KM) > 0
+		if kmRun && i < len(c.KM) && c.KM[i] != "" {
+			if c.kms == nil {
+				c.kms = map[int]*c11rKM{}
+			}
+			k := c11rNewKM(c.KM[i])
+			defer k.srv.Close()
+			defer close(k.release)
+			c.kms[i] = k
+			conf.KeymanagerAddr, conf.KeymanagerAuthToken = k.srv.URL, "token"
+		}
 		wg.Add(1)
 		go func(i int) {
 			defer wg.Done()
 			errs[i] = dkg.Run(peerCtx(ctx, i), conf)
-			if errs[i] != nil && (c == nil || c.Drop == nil) {
+			switch {
+			case errs[i] != nil && kmRun:
+				// every node is left to reach its own verdict, but not for ever: the others may wait for the failed node
+				go func() { time.Sleep(8 * time.Second); cancel() }()
+			case errs[i] != nil && (c == nil || c.Drop == nil):
 				cancel() // (with a lossy link every node is left to reach its own verdict)
 			}
 		}(i)
@@ -473,6 +608,35 @@ func c11rScenario(t *testing.T, c *c11rCeremony, checks map[string]int) (string,
 		}
 		return key, what
 	}
+	if c.Flow == "keymanager" {
+		errs, _ := c11rRunLossy(t, lock.Definition, srcDir, keys, nil, c)
+		return c11rKMMonitor(t, c, srcDir, errs, checks)
+	}
+	if c.Flow == "dirty" {
+		// an independent EARLIER ceremony (another cluster), whose artefacts are left behind as strays in the new data dirs
+		early := *c
+		early.Seed, early.Dirty, early.Validators = c.Seed+1000, nil, nil
+		r2 := rand.New(rand.NewSource(int64(early.Seed)))
+		lockE, keysE, _ := cluster.NewForT(t, c.Vals, c.T, c.N, early.Seed, r2,
+			func(d *cluster.Definition) { d.DKGAlgorithm = c.Algo }, func(d *cluster.Definition) { d.TargetGasLimit = 30000000 })
+		dirE := t.TempDir()
+		if err := c11rRun(t, lockE.Definition, dirE, keysE, nil); err != nil {
+			return "dkg:honest-ceremony-fails", fmt.Sprintf("earlier dkg.Run fails: %v", err)
+		}
+		for _, i := range c.Dirty {
+			if err := c11rStrays(path.Join(dirE, fmt.Sprintf("node%d", i)), path.Join(srcDir, fmt.Sprintf("node%d", i))); err != nil {
+				t.Fatal(err)
+			}
+		}
+		if err := c11rRun(t, lock.Definition, srcDir, keys, nil); err != nil {
+			return "dkg:honest-ceremony-fails", fmt.Sprintf("dkg.Run (%s) in data dirs with tolerated stray files on nodes %v fails: %v", c.Algo, c.Dirty, err)
+		}
+		key, what := c11rArtefacts(t, c, srcDir, c.Vals, checks)
+		if key != "" {
+			what = fmt.Sprintf("data dirs of nodes %v held stray siblings of the output artefacts (valid artefacts of an earlier, different ceremony) before dkg.Run: %s", c.Dirty, what)
+		}
+		return key, what
+	}
 	if _, err := c11rRunLossy(t, lock.Definition, srcDir, keys, nil, c); err != nil {
 		return "dkg:honest-ceremony-fails", fmt.Sprintf("dkg.Run (%s, no-verify=%v) among %d honest nodes, t=%d, %d validators fails: %v", c.Algo, c.NoVerify, c.N, c.T, c.Vals, err)
 	}
@@ -510,14 +674,77 @@ func c11rScenario(t *testing.T, c *c11rCeremony, checks map[string]int) (string,
 		appendConfigs[i] = dkg.AppendConfig{AddValidators: c.Add, ValidatorAddresses: addrs, ClusterLock: prevLock, SecretShares: prevSecrets, DepositData: dd}
 	}
 	dstDir := t.TempDir()
+	for _, i := range c.Dirty { // strays: the artefacts of the FIRST ceremony (a different lock than the one about to be written)
+		if err := c11rStrays(path.Join(srcDir, fmt.Sprintf("node%d", i)), path.Join(dstDir, fmt.Sprintf("node%d", i))); err != nil {
+			t.Fatal(err)
+		}
+	}
 	if err := c11rRun(t, lock.Definition, dstDir, keys, appendConfigs); err != nil {
 		return "dkg:honest-ceremony-fails", fmt.Sprintf("add-validators dkg.Run (%s, +%d validators) among %d honest nodes fails: %v", c.Algo, c.Add, c.N, err)
 	}
 	key, what := c11rArtefacts(t, c, dstDir, c.Vals+c.Add, checks)
 	if key != "" {
 		what = fmt.Sprintf("after the add-validators ceremony (%d existing + %d new validators): %s", c.Vals, c.Add, what)
+		if len(c.Dirty) > 0 {
+			what = fmt.Sprintf("data dirs of nodes %v held stray siblings of the output artefacts (cluster-lock.json.tmp/.bak/~, validator_keys.tmp/ ...: the valid artefacts of the first ceremony) before the second dkg.Run; %s", c.Dirty, what)
+		}
 	}
 	return key, what
+}
+
+// c11rKMMonitor: dkg.Run returning nil on a node => that node's key shares are held by its keymanager (or on disk) and
+// match the public shares published for it in its (verifying) lock. A node whose import failed must return an error.
+func c11rKMMonitor(t *testing.T, c *c11rCeremony, dir string, errs []error, checks map[string]int) (string, string) {
+	t.Helper()
+	for i, e := range errs {
+		if e != nil {
+			c.NodeErrs = append(c.NodeErrs, fmt.Sprintf("node %d: %v", i, e))
+		}
+	}
+	for i := 0; i < c.N; i++ {
+		mode := ""
+		if i < len(c.KM) {
+			mode = c.KM[i]
+		}
+		if errs[i] != nil {
+			continue // not successful on this node: the property promises nothing for it
+		}
+		checks["keymanager_node_success_checked"]++
+		dataDir := path.Join(dir, fmt.Sprintf("node%d", i))
+		lock, err := dkg.LoadAndVerifyClusterLock(context.Background(), path.Join(dataDir, "cluster-lock.json"), "", false)
+		if err != nil {
+			return "dkg:lock-does-not-verify", fmt.Sprintf("node %d returned nil but its cluster-lock.json does not load/verify: %v", i, err)
+		}
+		var secrets []tbls.PrivateKey
+		where := "on disk"
+		if k := c.kms[i]; k != nil && mode == "ok" {
+			where = "in its keymanager"
+			if secrets, err = k.secrets(t); err != nil {
+				return "dkg:keystores-do-not-load", fmt.Sprintf("node %d: what the keymanager accepted does not load: %v", i, err)
+			}
+		}
+		if len(secrets) == 0 {
+			if s, err := dkg.LoadSecrets(path.Join(dataDir, "validator_keys")); err == nil {
+				secrets, where = s, "on disk"
+			}
+		}
+		if len(secrets) != len(lock.Validators) {
+			imp := 0
+			if k := c.kms[i]; k != nil {
+				imp = k.imports
+			}
+			return "dkg:success-without-key-shares", fmt.Sprintf("node %d (keymanager mode %q, %d import request(s) received) returned nil from dkg.Run and wrote a lock with %d validators, but holds %d secret shares (keymanager and disk)",
+				i, mode, imp, len(lock.Validators), len(secrets))
+		}
+		for v := range lock.Validators {
+			checks["keymanager_share_matches_lock"]++
+			pk, err := tbls.SecretToPublicKey(secrets[v])
+			if err != nil || !bytes.Equal(pk[:], lock.Validators[v].PubShares[i]) {
+				return "dkg:secret-share-mismatch", fmt.Sprintf("node %d: the secret share of validator %d held %s does not match lock.Validators[%d].PubShares[%d]", i, v, where, v, i)
+			}
+		}
+	}
+	return "", ""
 }
 
 func TestVerifC11Run(t *testing.T) {
@@ -545,7 +772,7 @@ func TestVerifC11Run(t *testing.T) {
 			t.Skip("not a dkg.Run replay")
 		}
 		r := wrap.Replay
-		todo = append(todo, c11rCeremony{Algo: r.Algo, Flow: r.Flow, N: r.N, T: r.T, Vals: r.Vals, Add: r.Add, Seed: r.Seed, FullRun: true, Drop: r.Drop, NoVerify: r.NoVerify})
+		todo = append(todo, c11rCeremony{Algo: r.Algo, Flow: r.Flow, N: r.N, T: r.T, Vals: r.Vals, Add: r.Add, Seed: r.Seed, FullRun: true, Drop: r.Drop, NoVerify: r.NoVerify, Dirty: r.Dirty, KM: r.KM})
 	} else if thorough {
 		todo = []c11rCeremony{
 			{Algo: "frost", Flow: "run", N: 3, T: 2, Vals: 2},
@@ -556,6 +783,14 @@ func TestVerifC11Run(t *testing.T) {
 			{Algo: "pedersen", Flow: "lossy", N: 4, T: 3, Vals: 1, Drop: &c11rDrop{Kind: "deal", From: 2, To: 0}},
 			{Algo: "pedersen", Flow: "lossy", N: 4, T: 3, Vals: 1, Drop: &c11rDrop{Kind: "resp", From: 1, To: 3}},
 		}
+		todo[2].Dirty, todo[3].Dirty = []int{0, 3}, []int{1}
+		todo = append(todo,
+			c11rCeremony{Algo: "frost", Flow: "dirty", N: 3, T: 2, Vals: 1, Dirty: []int{0, 2}},
+			c11rCeremony{Algo: "pedersen", Flow: "dirty", N: 4, T: 3, Vals: 2, Dirty: []int{1}},
+			c11rCeremony{Algo: "frost", Flow: "keymanager", N: 3, T: 2, Vals: 1, KM: []string{"500", "ok", ""}},
+			c11rCeremony{Algo: "frost", Flow: "keymanager", N: 4, T: 3, Vals: 2, KM: []string{"ok", "hang", "", "ok"}},
+			c11rCeremony{Algo: "pedersen", Flow: "keymanager", N: 3, T: 2, Vals: 1, KM: []string{"ok", "ok", "ok"}},
+			c11rCeremony{Algo: "default", Flow: "keymanager", N: 3, T: 3, Vals: 2, KM: []string{"", "", "500"}})
 		// thresholds below ceil(2n/3), with and without lock verification at the end of the ceremony
 		for _, nt := range [][2]int{{4, 2}, {5, 3}, {5, 2}} {
 			for _, nv := range []bool{true, false} {
@@ -576,6 +811,7 @@ func TestVerifC11Run(t *testing.T) {
 			{Algo: "default", Flow: "append", N: 4, T: 3, Vals: 1, Add: 1},
 		}
 		ap := shapes[(seed-1+len(shapes)*1000)%len(shapes)]
+		ap.Dirty = []int{seed % ap.N, (seed + 2) % ap.N} // stray artefacts of the first ceremony in some data dirs of the second
 		other := "pedersen"
 		if ap.Algo == "pedersen" {
 			other = "frost"
@@ -588,6 +824,9 @@ func TestVerifC11Run(t *testing.T) {
 		if other == "pedersen" {
 			todo = append(todo, c11rCeremony{Algo: "pedersen", Flow: "run", N: 4, T: 2, Vals: 1, NoVerify: true})
 		}
+		// one keymanager scenario: node 0's import is answered with 500 (or hangs, by seed), node 1's keymanager is healthy, the rest use the disk
+		bad := []string{"500", "500", "hang"}[seed%3]
+		todo = append(todo, c11rCeremony{Algo: "frost", Flow: "keymanager", N: 3, T: 2, Vals: 1, KM: []string{bad, "ok", ""}})
 		if os.Getenv("VERIF_C11_LOSSY") != "" || seed%3 == 0 {
 			// corpus: the minimised input of reading note N-C11-QUAL through the full ceremony (rotates in every third seed at quick)
 			todo = append(todo, c11rCeremony{Algo: "pedersen", Flow: "lossy", N: 4, T: 3, Vals: 1, Drop: &c11rDrop{Kind: "deal", From: 2, To: 0}})
@@ -606,6 +845,14 @@ func TestVerifC11Run(t *testing.T) {
 		if c.NoVerify {
 			out.Dist["dkg.Run_no_verify"]++
 		}
+		if len(c.Dirty) > 0 {
+			out.Dist["dkg.Run_dirty_data_dirs"]++
+		}
+		for _, m := range c.KM {
+			if m != "" {
+				out.Dist["dkg.Run_keymanager_"+m]++
+			}
+		}
 		if 3*c.T < 2*c.N {
 			out.Dist["dkg.Run_threshold_below_two_thirds"]++
 		}
@@ -614,7 +861,7 @@ func TestVerifC11Run(t *testing.T) {
 				c.Err = what
 			}
 			out.Violations = append(out.Violations, c11rViolation{Key: key,
-				What:   fmt.Sprintf("full dkg.Run (%s %s, n=%d, threshold recorded in the lock t=%d, %d validators, no-verify=%v) returned nil on every node; artefacts on disk: %s", c.Algo, c.Flow, c.N, c.T, c.Vals, c.NoVerify, what),
+				What:   fmt.Sprintf("full dkg.Run (%s %s, n=%d, threshold recorded in the lock t=%d, %d validators, no-verify=%v); artefacts: %s", c.Algo, c.Flow, c.N, c.T, c.Vals, c.NoVerify, what),
 				Replay: *c})
 		}
 		out.Ceremonies = append(out.Ceremonies, *c)
